@@ -76,6 +76,9 @@ Fixpoint m_steps (m : mode) (st : st10) (ops : list op10) {struct ops} : list ob
   | op :: t => let '(o, st') := m_step m st op in o :: m_steps m st' t
   end.
 Definition run_C10 (c : case10) : list obs10 := m_steps (c_mode c) st0 (c_ops c).
+(* the state (all handles, all maps ever produced) after a history *)
+Fixpoint m_final (m : mode) (st : st10) (ops : list op10) {struct ops} : st10 :=
+  match ops with [] => st | op :: t => m_final m (snd (m_step m st op)) t end.
 
 (* ---------- tokens ---------- *)
 Fixpoint pairs_of (l : list N) {struct l} : option (list (N * N)) :=
